@@ -29,6 +29,7 @@
 //             T bit <opno> arena <block> <slice>            a committed bit over an inaccessible slice (not governed by a mask)
 //             T bit <opno> mask <segbase> <slice>           a commit-mask bit (or a huge segment) over an inaccessible slice
 //             T orphan <opno> <block>                       an in-use arena block that belongs to no segment (leaked)
+//             T unused <opno> <segbase> <block> <used>      a live segment without a single page (never freed later)
 //             T chk <opno> <bits checked>
 //             T crash <opno> <signal>
 #include REPO_STATIC
@@ -68,9 +69,10 @@ static void on_crash(int sig) {
 static int slice_acc(size_t slice) { return shim_is_accessible((void*)(slice * SLICE), SLICE); }
 
 // the live segments: every run of in-use arena blocks starts with a segment header (all users of the arena are
-// segments here).  A segment can be live without a live page (a fresh segment whose first span commit was refused
-// stays cached in the span queues), so the live blocks do not tell; the header is read only when the ledger says
-// that it is accessible and is recognised by its cookie.
+// segments here).  Before the repair of mi_segments_page_alloc a segment could stay live without a live page (a fresh
+// segment whose first span commit was refused, or that the retry did not use, stayed cached in the span queues), so
+// the live blocks do not tell; the header is read only when the ledger says that it is accessible and is recognised
+// by its cookie.  A segment without a page after an API call is reported (T unused): nothing ever frees it.
 static mi_segment_t* segs[256]; static size_t nsegs;
 static void collect_segments(void) {
   nsegs = 0;
@@ -125,6 +127,10 @@ static void dump(size_t log_from) {
       if (sl != &s->slices[0] && sl->block_size > 0) printf(" %zu:%u", (size_t)(sl - s->slices), sl->slice_count);
     }
     printf("\n");
+    // implementation oracle: a segment is never owned without a page once the API call has returned
+    // (_mi_segment_page_free frees a segment with its last page; mi_segments_page_alloc frees a fresh segment that
+    // its retry did not use); such a segment would never be freed: mi_collect visits segments through their pages
+    if (cnt == 0 || s->used == 0) printf("T unused %ld %zu %zu %zu\n", opno, base, blk, s->used);
     // implementation oracle: mask bit => accessible ; huge => all accessible
     for (size_t k = 0; k < s->segment_slices; k++) {
       int bit = (s->kind == MI_SEGMENT_HUGE) ? 1 : (k < MI_COMMIT_MASK_BITS && ((s->commit_mask.mask[k / 64] >> (k % 64)) & 1));
